@@ -9,7 +9,7 @@ from ..core import hx, unhx
 PROOF_MODULE = "Nlmodel.Proofs.C07"
 PROOF_FILES = ["Nlmodel/Proofs/C07.lean", "Nlmodel/Proofs/Lemmas/Pratt.lean", "Nlmodel/Model/Parser.lean", "Nlmodel/Model/Printer.lean"]
 THEOREM_FILE = PROOF_FILES[0]
-LEVEL_TEXT = ("Lean theorems about the model parser (a mirror of parser.rs with the same decision points) and the specification printer: the parser's precedence table equals the documented one (complete table); op-assignment desugars to `a = a + (e)`; `anders als` nests to the right; redundant parentheses do not create nodes; the ROUND-TRIP theorem parse(print t) = t is PROVED (Pratt-loop lemma with explicit, linear fuel) for every expression tree over the 13 binary operators and atoms (identifiers, integer literals, booleans) of any shape and depth, at expression level in any non-continuing context and at program level with the fuel parse itself supplies; the first version of the theorem (binary operators over atoms, explicit linear fuel) is kept; the whole grammar follows below. The model parser is tied to parser.rs by comparing trees (canonical s-expressions, floats by bits) on every printed text, and the round trip itself is run against the real parser on the complete enumeration of all trees with up to three binary operators over every operator tuple (11 336 trees) plus random statement-level trees, each under several layouts. THE WHOLE GRAMMAR (C07_print_parse_whole_grammar, Lemmas/RoundTrip.lean): for EVERY program tree the parser can produce (RTF.WB: prefix operators, the 13 binary operators with a non-function left operand, assignment to names and indexed names, calls of names and of function literals named or not, indexing of names/list literals/string literals, als/anders, zolang, functie with parameters, list literals, blocks, stel/antwoord/stop/volgende, integer and string literals; float literals under RTF.FloatRT), of any size and depth, parseTokens(printProgram b) = b with the fuel parse supplies (mutual induction over expressions, argument lists, statements, blocks; fuel handled existentially with ParseMono/ParseStable: more fuel never changes an answer, and ParseFuel: the supplied fuel suffices); and at text level under any layout, C07_text_round_trip_whole_grammar.")
+LEVEL_TEXT = ("Lean theorems about the model parser (a mirror of parser.rs with the same decision points) and the specification printer: the parser's precedence table equals the documented one (complete table); (op-assignment desugaring, right-nesting `anders als` and redundant parentheses are covered by the parser-range theorem C07_parser_range - every tree the parser returns has the round-trip shape - and by the direct equivalence and redundant-parenthesis oracles on the real parser; explicit theorems for them are listed under SESSION 7 if present); the ROUND-TRIP theorem parse(print t) = t is PROVED (Pratt-loop lemma with explicit, linear fuel) for every expression tree over the 13 binary operators and atoms (identifiers, integer literals, booleans) of any shape and depth, at expression level in any non-continuing context and at program level with the fuel parse itself supplies; the first version of the theorem (binary operators over atoms, explicit linear fuel) is kept; the whole grammar follows below. The model parser is tied to parser.rs by comparing trees (canonical s-expressions, floats by bits) on every printed text, and the round trip itself is run against the real parser on the complete enumeration of all trees with up to three binary operators over every operator tuple (11 336 trees) plus random statement-level trees, each under several layouts. THE WHOLE GRAMMAR (C07_print_parse_whole_grammar, Lemmas/RoundTrip.lean): for EVERY program tree the parser can produce (RTF.WB: prefix operators, the 13 binary operators with a non-function left operand, assignment to names and indexed names, calls of names and of function literals named or not, indexing of names/list literals/string literals, als/anders, zolang, functie with parameters, list literals, blocks, stel/antwoord/stop/volgende, integer and string literals; float literals under RTF.FloatRT), of any size and depth, parseTokens(printProgram b) = b with the fuel parse supplies (mutual induction over expressions, argument lists, statements, blocks; fuel handled existentially with ParseMono/ParseStable: more fuel never changes an answer, and ParseFuel: the supplied fuel suffices); and at text level under any layout, C07_text_round_trip_whole_grammar. SESSION 7, the remaining clauses as explicit theorems (Lemmas/C07Extra*): C07_compound_assignment_desugars (a OP= e parses to assign a (a OP e), for all 13 operators, and the program parses exactly as with the explicit spelling a = a OP (e)), C07_else_if_chain_nests_right (chains of any length), C07_redundant_parentheses_statement / _operands (any number of parentheses around an expression statement or around either operand of a binary operator gives the tree of the canonical print), C07_optional_semicolons (any subset of the semicolons left out, provided each omitted one stands before a token that cannot continue an expression - the exact decidable condition sepFree; the last one is always optional) with C07_semicolon_condition_needed (a; (b) vs a (b): the condition is necessary), optional commas likewise (C07X.X4_elems), and C07_layout_of_any_token_list (any token list rendered under any layout parses to what the tokens parse to).")
 LEVEL_NOTE = ("Trusted: Lean kernel; the round-trip theorem covers binary-operator expressions over atoms, at token level (C07_print_parse_expr/_program) and at TEXT level with any layout (C07_text_round_trip = C07 + C08_lex_render); the whole-grammar theorem's side condition on float literals (RTF.FloatRT: the literal's spelling reads back) IS a theorem for every finite non-negative non-NaN float (C07_float_literals_read_back, from the float text round trip of C14), i.e. for everything a number token can denote except +infinity written out with 309 digits, whose printed form `inf.0` is not a number token. C07_parser_range: every tree the parser produces (finite float literals) is in the range of the round trip, so C07_parse_print_parse holds for EVERY program that parses: printed canonically under any layout it parses to the same tree (spellability discharged for parsed trees), and C07_same_tree_iff_same_print. Token spelling relies on C08.")
 TECHNIQUE = "Lean 4 proof (Pratt-loop lemma, table equality) + print/parse round trip on the real parser"
 RULE = ("complete enumeration of binary-operator trees with 1..3 operators over all 13^n operator tuples (11 336 trees), each "
@@ -111,6 +111,32 @@ def run(res, tier, rng, table_diffs=()):
         if ans[k] != ans[len(eqs) + k] or not ans[k].startswith("ok"):
             res.violation("two spellings the documentation equates parse to different trees",
                           dict(kind="equivalence", input=[a, b], impl=[ans[k], ans[len(eqs) + k]]))
+    # REDUNDANT PARENTHESES never change the tree (round 10): around the operand of a prefix operator followed by every operator,
+    # call and index; around every integer literal of the printed random programs (one at a time and all at once)
+    pairs = []
+    for pre in ["-", "!", "- -", "!!", "-!"]:
+        for tail in ["+ b", "- b", "* b", "/ b", "% b", "< b", "<= b", "> b", ">= b", "== b", "!= b", "&& b", "|| b", "(1)", "[0]", "* b + c", "== b && c", "(1)(2)", "[0][1]", ""]:
+            for atom in ["a", "1", "a[0]", "f(2)", "ja"]:
+                pairs.append(("%s%s %s" % (pre, atom, tail), "%s(%s) %s" % (pre, atom, tail)))
+                pairs.append(("x = %s%s %s" % (pre, atom, tail), "x = %s((%s)) %s" % (pre, atom, tail)))
+    import re as _re
+    for t in [t for t in texts if _re.search(r"(?<![\w.\"])\d+(?![\w.\"])", t)][: (400 if tier == "quick" else 6000)]:
+        if '"' in t:
+            continue
+        ms = list(_re.finditer(r"(?<![\w.])\d+(?![\w.])", t))
+        m = ms[rng.below(len(ms))]
+        pairs.append((t, t[:m.start()] + "(" + m.group(0) + ")" + t[m.end():]))
+        pairs.append((t, _re.sub(r"(?<![\w.])(\d+)(?![\w.])", r"((\1))", t)))
+    pa = core.impl(["parse " + hx(a) for a, _ in pairs] + ["parse " + hx(b) for _, b in pairs])
+    pm = core.model(["parse " + hx(b) for _, b in pairs])
+    for k, (a, b) in enumerate(pairs):
+        res.seen("P" + b)
+        res.count("redundant-parens")
+        if pa[k] != pa[len(pairs) + k] or pa[len(pairs) + k] != pm[k]:
+            bad += 1
+            if bad <= 8:
+                res.violation("redundant parentheses changed the syntax tree",
+                              dict(kind="equivalence", input=[a, b], impl=[pa[k], pa[len(pairs) + k]], model=pm[k]))
     # WHERE IN THE TEXT an expression stands never changes its tree: the same text as the whole program, after a first statement,
     # after a comment / blank lines, inside a block — in particular at the very beginning of the text (the first token is read
     # by the parser's constructor, not by its loop), for every prefix operator followed by every binary operator
